@@ -237,7 +237,44 @@ func readLog(path string) (started, ended map[int]bool) {
 	return
 }
 
+// runLocalRound runs one round; anything it would report is first re-executed
+// alone with doubled waits (machine load), and only what shows up again is kept.
 func runLocalRound(c *Ctx, round int, g c12Cfg, reqs []c12Req) {
+	r := c.Res
+	before := len(r.Violations)
+	runLocalRoundOnce(c, round, g, reqs)
+	if len(r.Violations) == before {
+		return
+	}
+	first := append([]Violation{}, r.Violations[before:]...)
+	r.Violations = r.Violations[:before]
+	saved := c12Wait
+	c12Wait = 2 * saved
+	runLocalRoundOnce(c, round+100000, g, reqs)
+	c12Wait = saved
+	r.hist("local_rounds_reexecuted_alone")
+	second := append([]Violation{}, r.Violations[before:]...)
+	r.Violations = r.Violations[:before]
+	seen := map[string]bool{}
+	for _, v := range second {
+		seen[v.Key] = true
+	}
+	reported := map[string]bool{}
+	for _, v := range first {
+		if seen[v.Key] {
+			reported[v.Key] = true
+		} else {
+			r.note("local round %d: %s (%s) did not reproduce when the round was re-executed alone; not reported", round, v.Key, v.What)
+		}
+	}
+	for _, v := range second {
+		if reported[v.Key] {
+			r.violate(v)
+		}
+	}
+}
+
+func runLocalRoundOnce(c *Ctx, round int, g c12Cfg, reqs []c12Req) {
 	r := c.Res
 	dir := filepath.Join(c.Scratch, fmt.Sprintf("local%d", round))
 	os.MkdirAll(dir, 0o755)
@@ -466,6 +503,46 @@ func runLocalRound(c *Ctx, round int, g c12Cfg, reqs []c12Req) {
 			break
 		}
 		time.Sleep(time.Millisecond)
+	}
+	// outcome vs the system model (Martian.SemaphoreSys): by Props.C12.local_every_schedule_finishes
+	// the outcome does not depend on the interleaving, so any model schedule must agree
+	{
+		var sizes, js []string
+		for k, s := range sems {
+			if s != nil {
+				sizes = append(sizes, strconv.FormatInt(limits[k], 10))
+			}
+		}
+		for _, j := range jobs {
+			var am []string
+			for k, s := range sems {
+				if s != nil {
+					am = append(am, strconv.FormatInt(j.amts[k], 10))
+				}
+			}
+			js = append(js, fmt.Sprintf("%d:%s", j.id, strings.Join(am, ",")))
+		}
+		rep := c.Drv.Ask("C12.sys", strings.Join(sizes, ","), strings.Join(js, ";"))
+		_, ended := readLog(logPath)
+		var real []string
+		for _, j := range jobs {
+			ran, failed := "0", "0"
+			if ended[j.id] {
+				ran = "1"
+			}
+			if j.state == "failed" {
+				failed = "1"
+			}
+			real = append(real, fmt.Sprintf("%d:1:%s:%s", j.id, ran, failed))
+		}
+		model := strings.SplitN(rep, "|", 2)[0]
+		if model != strings.Join(real, ";") {
+			r.violate(Violation{Kind: "correspondence", Key: "C12:local:system-model-mismatch",
+				What:  "outcome of the real local jobs (id:over:ran:refused) differs from the nested-semaphore system model",
+				Input: input, Impl: strings.Join(real, ";"), Model: rep,
+				Broken: "correspondence C12.sys (Martian.Semaphore.Sys.act vs LocalJobManager.Enqueue)"})
+		}
+		r.hist("local_system_model_comparisons")
 	}
 	r.count(fmt.Sprintf("local|%s|%v", g, reqs), true)
 	r.hist("local_rounds")
